@@ -193,7 +193,15 @@ def gen_file_case(rng, lookalike=False):
     if rng.chance(10):
         entries.append({"name": "extra_scalar", "raw": rng.choice([{"f": "inf"}, "", "inf", 2 ** 70, {"u": 0x20}, None, {"f": [3, 1]}])})
     sets = []
+    for f in forms:      # a non-optional form that carries enabled: true (e.g. dependency-controlled) and is given None
+        if "optional" not in f["kw"] and not any(k2 in ("enabled", "group") for k2, _ in f["extra"]) \
+                and f["tmpl"] in ("integer_parameter", "float_parameter", "string_parameter", "object_parameter") and rng.chance(15):
+            f["extra"].append(["enabled", True])
+            if rng.chance(60):
+                sets.append([f["name"], None])
     for f in forms:
+        if any(n == f["name"] for n, _ in sets):
+            continue
         if rng.chance(22):
             t = f["tmpl"]
             if t in ("string_parameter", "file_parameter"):
@@ -590,7 +598,9 @@ def oracle(case, obs):
     m1 = {k: demoted(v) for k, v in d1["d"]}
     stable = {k: demoted(v) for k, v in obs.get("reflat0", d0)["d"]}
     # an enabled form that holds None is switched off by write_ui_json (and its group with it): outside the domain
-    valueless_enabled = ui0 is not None and any(is_jdict(f) and jget(f, "enabled") is True and m0.get(name) is None for name, f in ui0["d"])
+    valueless_enabled = ui0 is not None and any(
+        is_jdict(f) and jget(f, "enabled") is True and m0.get(name) is None and (jget(f, "optional", False) is True or jhas(f, "groupOptional"))
+        for name, f in ui0["d"])
     def settable(name, v):
         """a set_data_value the property speaks about: a value for an optional form, or a non-None value for a form that has no
         enabled member (a non-optional form cannot be switched on or off by giving it a value)"""
@@ -598,7 +608,8 @@ def oracle(case, obs):
         if not is_jdict(f):
             return True
         if jhas(f, "enabled"):
-            return jget(f, "optional", False) is True
+            # ... and a non-optional form that says enabled: true keeps that state, so the None given to it must be what is written
+            return jget(f, "optional", False) is True or (v is None and jget(f, "enabled") is True and not jhas(f, "group"))
         return v is not None
     was_set = {n for n, v in case.get("sets", []) if settable(n, v)}
     if list(m0) != list(m1):
